@@ -198,6 +198,12 @@ fn real<R>(f: impl FnOnce() -> R, show: impl FnOnce(R) -> String) -> String {
 }
 
 pub fn oracle(case: &[u8], obs: &mut Obs) -> Result<(), Fail> {
+    run_history(case, obs).map(|_| ())
+}
+
+/// Interpret a history; returns the final heap (DOM values in every representation the public API can
+/// produce: parsed, shared, promoted, built) with the model of each slot and the operation log.
+pub fn run_history(case: &[u8], obs: &mut Obs) -> Result<(Vec<Value>, Vec<M>, String), Fail> {
     let mut src = Src::new(case);
     let mut st = State { slots: Vec::new(), models: Vec::new(), log: Vec::new(), shared: false, nontrivial: false };
     // initial slots
@@ -221,7 +227,8 @@ pub fn oracle(case: &[u8], obs: &mut Obs) -> Result<(), Fail> {
         obs.nt();
     }
     obs.render = Some(st.log.join("; "));
-    Ok(())
+    let log = st.log.join("; ");
+    Ok((st.slots, st.models, log))
 }
 
 fn step(st: &mut State, src: &mut Src) -> Result<(), Fail> {
